@@ -77,6 +77,9 @@ func (t *TimeSlotSet) Decode(d *Decoder) error {
 		return nil
 	}
 	// make the slice with length
+	if err := d.checkSequenceLength(length); err != nil {
+		return err
+	}
 	timeSlots := make([]TimeSlot, length)
 	for i := uint64(0); i < length; i++ {
 		if err = timeSlots[i].Decode(d); err != nil {
@@ -255,6 +258,9 @@ func (o *OffendersMark) Decode(d *Decoder) error {
 	}
 
 	// make the slice with length
+	if err := d.checkSequenceLength(length); err != nil {
+		return err
+	}
 	offenders := make([]Ed25519Public, length)
 	for i := uint64(0); i < length; i++ {
 		if err = offenders[i].Decode(d); err != nil {
@@ -415,6 +421,9 @@ func (t *TicketsExtrinsic) Decode(d *Decoder) error {
 	}
 
 	// make the slice with length
+	if err := d.checkSequenceLength(length); err != nil {
+		return err
+	}
 	tickets := make([]TicketEnvelope, length)
 	for i := uint64(0); i < length; i++ {
 		if err = tickets[i].Decode(d); err != nil {
@@ -473,6 +482,9 @@ func (b *ByteSequence) Decode(d *Decoder) error {
 	}
 
 	// make the slice with length
+	if err := d.checkSequenceLength(length); err != nil {
+		return err
+	}
 	byteSequence := make([]byte, length)
 	_, err = d.buf.Read(byteSequence)
 	if err != nil {
@@ -518,6 +530,9 @@ func (p *PreimagesExtrinsic) Decode(d *Decoder) error {
 	}
 
 	// make the slice with length
+	if err := d.checkSequenceLength(length); err != nil {
+		return err
+	}
 	preimages := make([]Preimage, length)
 	for i := uint64(0); i < length; i++ {
 		if err = preimages[i].Decode(d); err != nil {
@@ -669,6 +684,9 @@ func (r *RefineContext) Decode(d *Decoder) error {
 	}
 
 	// Make the slice with length
+	if err := d.checkSequenceLength(length); err != nil {
+		return err
+	}
 	prerequisites := make([]OpaqueHash, length)
 	for i := uint64(0); i < length; i++ {
 		if err = prerequisites[i].Decode(d); err != nil {
@@ -742,6 +760,9 @@ func (s *SegmentRootLookup) Decode(d *Decoder) error {
 	}
 
 	// make the slice with length
+	if err := d.checkSequenceLength(length); err != nil {
+		return err
+	}
 	segmentRootLookup := make([]SegmentRootLookupItem, length)
 	for i := uint64(0); i < length; i++ {
 		if err = segmentRootLookup[i].Decode(d); err != nil {
@@ -945,6 +966,9 @@ func (w *WorkReport) Decode(d *Decoder) error {
 	}
 
 	// make the slice with length
+	if err := d.checkSequenceLength(length); err != nil {
+		return err
+	}
 	results := make([]WorkResult, length)
 	for i := uint64(0); i < length; i++ {
 		if err = results[i].Decode(d); err != nil {
@@ -984,6 +1008,9 @@ func (r *ReportGuarantee) Decode(d *Decoder) error {
 	}
 
 	// make the slice with length
+	if err := d.checkSequenceLength(length); err != nil {
+		return err
+	}
 	signatures := make([]ValidatorSignature, length)
 	for i := uint64(0); i < length; i++ {
 		if err = signatures[i].Decode(d); err != nil {
@@ -1012,6 +1039,9 @@ func (g *GuaranteesExtrinsic) Decode(d *Decoder) error {
 	}
 
 	// make the slice with length
+	if err := d.checkSequenceLength(length); err != nil {
+		return err
+	}
 	guarantees := make([]ReportGuarantee, length)
 	for i := uint64(0); i < length; i++ {
 		if err = guarantees[i].Decode(d); err != nil {
@@ -1081,6 +1111,9 @@ func (a *AssurancesExtrinsic) Decode(d *Decoder) error {
 	}
 
 	// make the slice with length
+	if err := d.checkSequenceLength(length); err != nil {
+		return err
+	}
 	assurances := make([]AvailAssurance, length)
 	for i := uint64(0); i < length; i++ {
 		if err = assurances[i].Decode(d); err != nil {
@@ -1282,6 +1315,9 @@ func (d *DisputesExtrinsic) Decode(decoder *Decoder) error {
 
 	if length != 0 {
 		// make the slice with length
+		if err := decoder.checkSequenceLength(length); err != nil {
+			return err
+		}
 		verdicts := make([]Verdict, length)
 		for i := uint64(0); i < length; i++ {
 			if err = verdicts[i].Decode(decoder); err != nil {
@@ -1298,6 +1334,9 @@ func (d *DisputesExtrinsic) Decode(decoder *Decoder) error {
 
 	if length != 0 {
 		// make the slice with length
+		if err := decoder.checkSequenceLength(length); err != nil {
+			return err
+		}
 		culprits := make([]Culprit, length)
 		for i := uint64(0); i < length; i++ {
 			if err = culprits[i].Decode(decoder); err != nil {
@@ -1315,6 +1354,9 @@ func (d *DisputesExtrinsic) Decode(decoder *Decoder) error {
 
 	if length != 0 {
 		// make the slice with length
+		if err := decoder.checkSequenceLength(length); err != nil {
+			return err
+		}
 		faults := make([]Fault, length)
 		for i := uint64(0); i < length; i++ {
 			if err = faults[i].Decode(decoder); err != nil {
@@ -1462,6 +1504,9 @@ func (w *WorkItem) Decode(d *Decoder) error {
 
 	// An empty import list is followed by the extrinsic list like any other.
 	if length != 0 {
+		if err := d.checkSequenceLength(length); err != nil {
+			return err
+		}
 		importSegments := make([]ImportSpec, length)
 		for i := uint64(0); i < length; i++ {
 			if err = importSegments[i].Decode(d); err != nil {
@@ -1481,6 +1526,9 @@ func (w *WorkItem) Decode(d *Decoder) error {
 		return nil
 	}
 
+	if err := d.checkSequenceLength(length); err != nil {
+		return err
+	}
 	extrinsic := make([]ExtrinsicSpec, length)
 	for i := uint64(0); i < length; i++ {
 		if err = extrinsic[i].Decode(d); err != nil {
@@ -1551,6 +1599,9 @@ func (w *WorkPackage) Decode(d *Decoder) error {
 		return nil
 	}
 
+	if err := d.checkSequenceLength(length); err != nil {
+		return err
+	}
 	items := make([]WorkItem, length)
 	for i := uint64(0); i < length; i++ {
 		if err = items[i].Decode(d); err != nil {
@@ -1973,6 +2024,9 @@ func (t *TicketsAccumulator) Decode(d *Decoder) error {
 	}
 
 	// make the slice with epoch length
+	if err := d.checkSequenceLength(length); err != nil {
+		return err
+	}
 	tickets := make([]TicketBody, length)
 	for i := uint64(0); i < length; i++ {
 		if err = tickets[i].Decode(d); err != nil {
@@ -2111,6 +2165,9 @@ func (m *Mmr) Decode(d *Decoder) error {
 	}
 
 	// make the slice with length
+	if err := d.checkSequenceLength(length); err != nil {
+		return err
+	}
 	peaks := make([]MmrPeak, length)
 	for i := uint64(0); i < length; i++ {
 		// check pointer flag
@@ -2182,6 +2239,9 @@ func (b *BlockInfo) Decode(d *Decoder) error {
 		return nil
 	}
 
+	if err := d.checkSequenceLength(length); err != nil {
+		return err
+	}
 	reported := make([]ReportedWorkPackage, length)
 	for i := uint64(0); i < length; i++ {
 		if err = reported[i].Decode(d); err != nil {
@@ -2208,6 +2268,9 @@ func (b *BlocksHistory) Decode(d *Decoder) error {
 	}
 
 	// make the slice with length
+	if err := d.checkSequenceLength(length); err != nil {
+		return err
+	}
 	history := make([]BlockInfo, length)
 	for i := uint64(0); i < length; i++ {
 		if err = history[i].Decode(d); err != nil {
@@ -2265,6 +2328,9 @@ func (a *AuthPool) Decode(d *Decoder) error {
 	}
 
 	// make the slice with length
+	if err := d.checkSequenceLength(length); err != nil {
+		return err
+	}
 	pool := make([]OpaqueHash, length)
 	for i := uint64(0); i < length; i++ {
 		if err = pool[i].Decode(d); err != nil {
@@ -2374,6 +2440,9 @@ func (m *MetaCode) Decode(d *Decoder) error {
 	}
 
 	// Decode the Metadata
+	if err := d.checkSequenceLength(length); err != nil {
+		return err
+	}
 	metadata := make([]byte, length)
 	if _, err = io.ReadFull(d.buf, metadata); err != nil {
 		return err
@@ -2405,6 +2474,9 @@ func (d *DisputesRecords) Decode(decoder *Decoder) error {
 	}
 
 	if goodLength != 0 {
+		if err := decoder.checkSequenceLength(goodLength); err != nil {
+			return err
+		}
 		good := make([]WorkReportHash, goodLength)
 		for i := uint64(0); i < goodLength; i++ {
 			if err = good[i].Decode(decoder); err != nil {
@@ -2423,6 +2495,9 @@ func (d *DisputesRecords) Decode(decoder *Decoder) error {
 	}
 
 	if badLength != 0 {
+		if err := decoder.checkSequenceLength(badLength); err != nil {
+			return err
+		}
 		bad := make([]WorkReportHash, badLength)
 		for i := uint64(0); i < badLength; i++ {
 			if err = bad[i].Decode(decoder); err != nil {
@@ -2441,6 +2516,9 @@ func (d *DisputesRecords) Decode(decoder *Decoder) error {
 	}
 
 	if wonkyLength != 0 {
+		if err := decoder.checkSequenceLength(wonkyLength); err != nil {
+			return err
+		}
 		wonky := make([]WorkReportHash, wonkyLength)
 		for i := uint64(0); i < wonkyLength; i++ {
 			if err = wonky[i].Decode(decoder); err != nil {
@@ -2459,6 +2537,9 @@ func (d *DisputesRecords) Decode(decoder *Decoder) error {
 	}
 
 	if offendersLength != 0 {
+		if err := decoder.checkSequenceLength(offendersLength); err != nil {
+			return err
+		}
 		offenders := make([]Ed25519Public, offendersLength)
 		for i := uint64(0); i < offendersLength; i++ {
 			if err = offenders[i].Decode(decoder); err != nil {
@@ -2532,6 +2613,9 @@ func (r *ReadyRecord) Decode(d *Decoder) error {
 	}
 
 	// make the slice with length
+	if err := d.checkSequenceLength(length); err != nil {
+		return err
+	}
 	dependencies := make([]WorkPackageHash, length)
 	for i := uint64(0); i < length; i++ {
 		if err = dependencies[i].Decode(d); err != nil {
@@ -2562,6 +2646,9 @@ func (r *ReadyQueueItem) Decode(d *Decoder) error {
 	}
 
 	// make the slice with length
+	if err := d.checkSequenceLength(length); err != nil {
+		return err
+	}
 	records := make([]ReadyRecord, length)
 	for i := uint64(0); i < length; i++ {
 		if err = records[i].Decode(d); err != nil {
@@ -2607,6 +2694,9 @@ func (a *AccumulatedQueueItem) Decode(d *Decoder) error {
 	}
 
 	// make the slice with length
+	if err := d.checkSequenceLength(length); err != nil {
+		return err
+	}
 	items := make([]WorkPackageHash, length)
 	for i := uint64(0); i < length; i++ {
 		if err = items[i].Decode(d); err != nil {
@@ -2649,6 +2739,9 @@ func (a *AlwaysAccumulateMap) Decode(d *Decoder) error {
 	}
 
 	// make the map with length
+	if err := d.checkSequenceLength(length); err != nil {
+		return err
+	}
 	*a = make(AlwaysAccumulateMap, length)
 
 	for i := uint64(0); i < length; i++ {
@@ -2754,6 +2847,9 @@ func (l *LookupMetaMapEntry) Decode(d *Decoder) error {
 	}
 
 	// Init the map
+	if err := d.checkSequenceLength(length); err != nil {
+		return err
+	}
 	*l = make(LookupMetaMapEntry, length)
 	for i := uint64(0); i < length; i++ {
 		var key LookupMetaMapkey
@@ -2770,6 +2866,9 @@ func (l *LookupMetaMapEntry) Decode(d *Decoder) error {
 			(*l)[key] = nil
 		} else {
 			// make the slice with timeSlotSetSize
+			if err := d.checkSequenceLength(timeSlotSetSize); err != nil {
+				return err
+			}
 			val := make([]TimeSlot, timeSlotSetSize)
 			for i := uint64(0); i < timeSlotSetSize; i++ {
 				if err = val[i].Decode(d); err != nil {
@@ -2799,6 +2898,9 @@ func (p *PreimagesMapEntry) Decode(d *Decoder) error {
 	}
 
 	// Init the map
+	if err := d.checkSequenceLength(length); err != nil {
+		return err
+	}
 	*p = make(PreimagesMapEntry, length)
 
 	for i := uint64(0); i < length; i++ {
@@ -2833,6 +2935,9 @@ func (s *Storage) Decode(d *Decoder) error {
 	}
 
 	// Init the map
+	if err := d.checkSequenceLength(length); err != nil {
+		return err
+	}
 	*s = make(Storage, length)
 	for i := uint64(0); i < length; i++ {
 		// Decode the of the key
@@ -2903,6 +3008,9 @@ func (a *ServiceAccountState) Decode(d *Decoder) error {
 	}
 
 	// Init the map
+	if err := d.checkSequenceLength(length); err != nil {
+		return err
+	}
 	*a = make(ServiceAccountState, length)
 
 	for i := uint64(0); i < length; i++ {
@@ -3149,6 +3257,9 @@ func (e *ExtrinsicData) Decode(d *Decoder) error {
 		return nil
 	}
 
+	if err := d.checkSequenceLength(length); err != nil {
+		return err
+	}
 	data := make([]byte, length)
 	if _, err := d.buf.Read(data); err != nil {
 		return err
@@ -3161,6 +3272,9 @@ func (e *ExtrinsicData) Decode(d *Decoder) error {
 func (l *ExtrinsicDataList) Decode(d *Decoder) error {
 	length, err := d.DecodeLength()
 	if err != nil {
+		return err
+	}
+	if err := d.checkSequenceLength(length); err != nil {
 		return err
 	}
 	result := make([]ExtrinsicData, length)
@@ -3234,10 +3348,16 @@ func (m *ExportSegmentMatrix) Decode(d *Decoder) error {
 	if err != nil {
 		return err
 	}
+	if err := d.checkSequenceLength(outerLen); err != nil {
+		return err
+	}
 	result := make(ExportSegmentMatrix, outerLen)
 	for i := range result {
 		innerLen, err := d.DecodeLength()
 		if err != nil {
+			return err
+		}
+		if err := d.checkSequenceLength(innerLen); err != nil {
 			return err
 		}
 		row := make([]ExportSegment, innerLen)
@@ -3259,10 +3379,16 @@ func (m *OpaqueHashMatrix) Decode(d *Decoder) error {
 	if err != nil {
 		return err
 	}
+	if err := d.checkSequenceLength(outerLen); err != nil {
+		return err
+	}
 	result := make(OpaqueHashMatrix, outerLen)
 	for i := range result {
 		innerLen, err := d.DecodeLength()
 		if err != nil {
+			return err
+		}
+		if err := d.checkSequenceLength(innerLen); err != nil {
 			return err
 		}
 		row := make([]OpaqueHash, innerLen)
@@ -3319,6 +3445,9 @@ func (s *StateKeyVals) Decode(d *Decoder) error {
 	}
 
 	// Allocate space for the array
+	if err := d.checkSequenceLength(length); err != nil {
+		return err
+	}
 	*s = make(StateKeyVals, length)
 
 	// Decode each element in the array
@@ -3369,6 +3498,9 @@ func (a *AccumulatedServiceOutput) Decode(d *Decoder) error {
 	}
 
 	// Initialize the map with the given length
+	if err := d.checkSequenceLength(length); err != nil {
+		return err
+	}
 	*a = make(AccumulatedServiceOutput, length)
 	for i := uint64(0); i < length; i++ {
 		var key AccumulatedServiceHash
@@ -3402,6 +3534,9 @@ func (l *LastAccOut) Decode(d *Decoder) error {
 	}
 
 	// make the slice with length
+	if err := d.checkSequenceLength(length); err != nil {
+		return err
+	}
 	lastAccOut := make([]AccumulatedServiceHash, length)
 	for i := uint64(0); i < length; i++ {
 		if err = lastAccOut[i].Decode(d); err != nil {
@@ -3438,6 +3573,9 @@ func (a *Ancestry) Decode(d *Decoder) error {
 		return fmt.Errorf("ancestry length %d exceeds maximum lookup age %d", length, MaxLookupAge)
 	}
 
+	if err := d.checkSequenceLength(length); err != nil {
+		return err
+	}
 	*a = make(Ancestry, length)
 
 	for i := uint64(0); i < length; i++ {
